@@ -55,6 +55,35 @@ def run(ctx):
         ctx.case(("sizes", cfg["name"], cfg["seed"], cfg["size"]), len(steps) >= 3,
                  {"algorithm": cfg["name"], "configured": {k: list(v) for k, v in exp.items()}, "observed_per_step": [e[3] for e in steps[:4]]}
                  if len(ctx.samples) < 5 and cfg["name"] in ("IBEA", "GA", "SMPSO") else None)
+    # ---- variators that return fewer offspring than they take parents (PCX / UNDX / SPX: 10 -> 2, differential evolution: 4 -> 1):
+    # the offspring loop has to keep mating until it has enough; sizes are checked after every step
+    import random as _random
+    import plat
+    from platypus import Problem, Real, algorithms as A, operators as O
+    for aname, mk in (("GeneticAlgorithm", lambda p, v: A.GeneticAlgorithm(p, population_size=12, offspring_size=12, variator=v)),
+                      ("NSGAII", lambda p, v: A.NSGAII(p, population_size=12, variator=v)), ("SPEA2", lambda p, v: A.SPEA2(p, population_size=12, variator=v))):
+        for vname, mkv in (("PCX", lambda: O.PCX()), ("UNDX", lambda: O.UNDX()), ("SPX", lambda: O.SPX()), ("DifferentialEvolution", lambda: O.DifferentialEvolution()),
+                           ("GAOperator(PCX(4, 3), PM)", lambda: O.GAOperator(O.PCX(4, 3), O.PM()))):
+            single = aname == "GeneticAlgorithm"
+            p = Problem(4, 1 if single else 2, function=(lambda x: [sum(v * v for v in x)]) if single else (lambda x: [sum(v * v for v in x), sum((v - 1) ** 2 for v in x)]))
+            p.types[:] = Real(-1, 2)
+            _random.seed(rng.randrange(2 ** 31))
+            alg = plat.call(lambda: mk(p, mkv()))
+            inp = {"algorithm": aname, "variator": vname, "population_size": 12}
+            if isinstance(alg, str):
+                ctx.notes.append(f"size run aborted: {aname}/{vname}: {alg}")
+                continue
+            sizes = []
+            for _ in range(5):
+                r = plat.call_guarded(alg.step, seconds=20)
+                if isinstance(r, str):
+                    ctx.notes.append(f"size run aborted: {aname}/{vname}: {r}")
+                    break
+                sizes.append(len(alg.population))
+            if any(n != 12 for n in sizes):
+                ctx.fail("size-contract-broken", dict(inp, collection="population", sizes_per_step=sizes), sizes, "== 12 after every step", f"algorithms.{aname}")
+            ctx.case(("sizes-few-offspring", aname, vname), len(sizes) >= 3)
+    ctx.count("few_offspring_variator_runs", 15)
     # ---- the survival functions the generational algorithms call, on merged populations with duplicated objective vectors
     # (clones survive variation unchanged all the time): the next population has exactly min(N, |merged|) members
     from platypus import core as C
